@@ -44,6 +44,14 @@ RULE = ('template trees over constant/function/table/point atoms, sequence, repe
         'parallel compositions with 2-3 channels of different length, every single channel incl. the LONGEST one and '
         'pairs dropped or renamed by MappingPT / root mapping / create_program; atoms with all channels dropped); equal '
         'sub-templates built as ONE Python object (aliasing, 30 %), the same sub-template twice in a sequence.  '
+        'Round 4: deterministic families "decimal" (a body rendering to a CONSTANT waveform of decimal duration d, repeated '
+        'n times with float(d)*n inexact: 0.1x3, 0.7x3, 1.1x3 ... (12 pairs + 4 exact controls), 10 body shapes, rendered '
+        'as one waveform by to_waveform, to_single_waveform and make_compatible (11 configurations, also after cleanup / '
+        'flatten_and_balance); d as TimeType / float / numpy.float64, n as int / numpy.int64 / numpy.uint8 / float), "alias" '
+        '(the very same template object several times among the direct children of one SequencePT, via the constructor, @, '
+        'SequencePT.concatenate, table concatenate, **; the same object inside several enclosing templates; controls with '
+        'distinct objects), "capture" (mapped-in expressions / loop ranges that mention a loop index name), "badtable" '
+        '(rejected tables); random: numpy scalar parameters, ParallelChannelPT around the root.  '
         'Non-trivial = composite template (depth >= 2) or non-empty range.')
 TRUSTED = [
     'Coq 8.16.1 kernel + vm_compute (no native_compute)',
@@ -65,6 +73,11 @@ ASSUMPTIONS = [
     'waveform by channel name); an ArithmeticWaveform / TransformingWaveform is modelled as one entry per channel with '
     'a common duration (equivalent for "duration of the first part" because parallel parts have disjoint channels)',
     'measurements, measurement mappings and volatile counts are exercised but not modelled (the model ignores them)',
+    'make_compatible / Loop.cleanup / flatten_and_balance are not in the Coq model: that they leave Loop.duration, the sum of '
+    'the pieces and the duration of to_waveform unchanged is judged by the Python-side oracle py_spec_mc on the observation',
+    'duration.evaluate_in_scope (py_spec_num) is judged only where the template has a duration (integer counts and range '
+    'bounds); the model writes the iteration count of a for-loop in the ceiling form, the code (since 86f615f) in the floor '
+    'form: equal on integer ranges (C04_step_count_forms_agree)',
 ]
 
 TIME_DECIMALS = ['0.1', '0.2', '0.25', '0.5', '1', '1.5', '2', '2.5', '3', '0.125', '10', '0.3', '1.375', '7', '100.001',
@@ -1709,7 +1722,12 @@ def py_spec_num(case, obs):
         return None
     import json
     js = json.dumps(case['tpl'])
-    if '"flit"' in js or c04_spec.spec(case)[2] or any('"k": %d' % k in js for k in (3, 5)):
+    sp = c04_spec.spec(case)
+    if sp[0] == 'undef' and sp[1] == 'non_integer':
+        return None       # a repetition count / range bound that is not an integer (9.5): create_program rejects it, the
+                          # template has no duration there and the iteration count floor((stop - start + step - sign/2)/step)
+                          # (86f615f) is only meant for integer ranges (at half-integers it sits on an integer)
+    if '"flit"' in js or sp[2] or any('"k": %d' % k in js for k in (3, 5)):
         return None       # a float literal / float arithmetic (also the literal 1/3, 1/5 in a branch the specification
                           # never reaches) takes part: sympy's own float arithmetic is not judged
     if F(sn) != F(obs['sym']):
@@ -1884,10 +1902,15 @@ MANIFEST = {
                   'and all four views equal the symbolic duration, with no reference to the specification; C04_guard_exact.  '
                   'One refuting witness per class (negative count, negative duration, near-integer, unequal parallel parts, '
                   'binary-vs-decimal reading, all channels of an atom dropped, zero-length function leaf -> to_waveform '
-                  'raises).  Range closed form for both step signs; no accumulation.  One finding of the unchanged code is '
-                  'outside the model (float step count in ForLoopPT.duration.evaluate_in_scope) and is judged by the '
-                  'correspondence only.  The class "all channels dropped" is guarded at every atom, also where a dropped '
-                  'part of a parallel composition would be harmless (guard not tight there; judged by the correspondence).',
+                  'raises).  Range closed form for both step signs; no accumulation.  Round 4: the repaired iteration count '
+                  '(floor form, /repo 86f615f) equals the model\'s ceiling form on all integer ranges '
+                  '(C04_step_count_forms_agree); substituting a parameter mapping into an expression is evaluation in the '
+                  'extended environment (C04_substitution_is_environment_extension; lifted to mapped atoms, not yet to all '
+                  'template kinds).  Not in the model, judged by a Python oracle on the observation only: make_compatible / '
+                  'cleanup / flatten_and_balance leave the three program durations unchanged.  The class "all channels '
+                  'dropped" is guarded at every atom, also where a dropped part of a parallel composition would be harmless '
+                  '(guard not tight there; judged by the correspondence); "leaves define the same channels" is a guard '
+                  '(g_uniform), not a proved invariant of channel-consistent templates.',
     'level_note': 'Trusted: Coq kernel, sympy as the oracle for the exact value of the closed forms (compared case by case), '
                   'shortest-decimal float conversion (C14), harness.  Binary float arithmetic inside duration expressions '
                   'is outside the property and not judged (counted as excluded_float_arith); isclose is modelled on exact '
